@@ -93,8 +93,9 @@ func NewFix() *Fix {
 	bankSel := common.FromHex("0x18160ddd")
 	o := world.Options{
 		NumAccounts: 6, NumVals: 2, Coinomics: &cp, FastGov: true, SlashWindow: 10,
-		Balance:    sdkmath.NewIntFromBigInt(new(big.Int).Exp(big.NewInt(10), big.NewInt(24), nil)),
-		ExtraCoins: sdk.NewCoins(sdk.NewInt64Coin("atest", 1000000)),
+		Balance: sdkmath.NewIntFromBigInt(new(big.Int).Exp(big.NewInt(10), big.NewInt(24), nil)),
+		// aLIQUID75: a second denomination the DAO accepts (a liquid-vesting style name), held from genesis
+		ExtraCoins: sdk.NewCoins(sdk.NewInt64Coin("atest", 1000000), sdk.NewInt64Coin("aLIQUID75", 1000000)),
 		Contracts: []world.GenesisContract{
 			{Addr: DirtyAddr, Code: dirtyCode(), Balance: 1000},
 			{Addr: QueryAddr, Code: queryCode(bankSel)},
@@ -217,8 +218,37 @@ func Templates() []Template {
 			to := sdk.AccAddress(world.Key(51).PubKey().Address().Bytes())
 			return [][]byte{cosmosTx(w, 1, vtypes.NewMsgCreateClawbackVestingAccount(A(w, 1), to, w.Header.Time, lock, vest, false))}
 		}},
+		{Name: "vestingGrantWithStake", Build: func(w *world.World, _ precomp.ABIs) [][]byte {
+			// a plain account is turned into a vesting account whose already vested part is staked at once
+			to := sdk.AccAddress(world.Key(53).PubKey().Address().Bytes())
+			amt := coins(world.Denom, 400)
+			vest := sdkvesting.Periods{{Length: 10, Amount: amt}, {Length: 100000, Amount: amt}}
+			return [][]byte{cosmosTx(w, 1, vtypes.NewMsgConvertIntoVestingAccount(A(w, 1), to, w.Header.Time.Add(-15*time.Second), nil, vest, true, true, w.ValAddr[0]))}
+		}},
+		{Name: "vestingEvmSpend", Steps: func() []func(w *world.World, _ precomp.ABIs) []byte {
+			// a vesting account with some free coins makes three Ethereum value transfers that together
+			// stay within its spendable balance (the eth ante handler's vesting check sums them up)
+			spender := sdk.AccAddress(world.Key(52).PubKey().Address().Bytes())
+			steps := []func(w *world.World, _ precomp.ABIs) []byte{
+				func(w *world.World, _ precomp.ABIs) []byte {
+					amt := coins(world.Denom, 5000)
+					return cosmosTx(w, 1, vtypes.NewMsgCreateClawbackVestingAccount(A(w, 1), spender, w.Header.Time, sdkvesting.Periods{{Length: 100000, Amount: amt}}, sdkvesting.Periods{{Length: 50000, Amount: amt}}, false))
+				},
+				func(w *world.World, _ precomp.ABIs) []byte {
+					return cosmosTx(w, 1, banktypes.NewMsgSend(A(w, 1), spender, coins(world.Denom, 1000)))
+				},
+			}
+			for i := 0; i < 3; i++ {
+				steps = append(steps, func(w *world.World, _ precomp.ABIs) []byte {
+					to := w.Eth[2]
+					return ethTx(w, 52, &to, 300, nil, 21000, 0)
+				})
+			}
+			return steps
+		}()},
 		{Name: "daoFund", Build: func(w *world.World, _ precomp.ABIs) [][]byte {
-			return [][]byte{cosmosTx(w, 1, ucdaotypes.NewMsgFund(coins(world.Denom, 100), A(w, 1)))}
+			// two denominations, so that a ratio transfer afterwards moves (and reports) more than one coin
+			return [][]byte{cosmosTx(w, 1, ucdaotypes.NewMsgFund(coins(world.Denom, 100).Add(sdk.NewInt64Coin("aLIQUID75", 7)), A(w, 1)))}
 		}},
 		{Name: "daoTransferRatio", Build: func(w *world.World, _ precomp.ABIs) [][]byte {
 			return [][]byte{cosmosTx(w, 1, ucdaotypes.NewMsgTransferOwnershipWithRatio(A(w, 1), A(w, 2), sdk.NewDecWithPrec(5, 1)))}
@@ -714,6 +744,11 @@ func LifecycleChains(tmpl []Template, nBase int) []Plan {
 	chain("liquidate", "erc20SendToModule", "govToggleLiquid0", "erc20SendToModule", "redeemAll")
 	chain("evmCreate", "govEvmParams", "evmCreate", "evmBankQuery", "pcDelegate")
 	chain("evmTransfer", "govFeemarketParams", "evmTransfer", "evmDirtyCall", "evmTransfer")
+	// two day-epoch boundaries, the second one hit by a block only a few seconds past the exact end
+	// (time-driven BeginBlock logic that a node may have cached differently)
+	day := 24 * time.Hour
+	out = append(out, Plan{Name: "chain:epochs(two day boundaries)", Blocks: [][]int{{ix["bankSend"]}, {}, {}, {}, {}, {}},
+		Dts: []time.Duration{6 * time.Second, day, 6 * time.Second, day - 10*time.Second, 6 * time.Second, 6 * time.Second}, Tail: 2})
 	return out
 }
 
